@@ -88,6 +88,18 @@ func controlExpectations() []traceCase {
 	}{{"\"bob\"", []string{"1"}}, {"\"Alice\"", []string{"2"}}, {"\"Carol\"", nil}, {"\"alice\"", nil}} {
 		out = append(out, traceCase{"switch (" + s.val + ") { case \"bob\" { rec(1); } case /^A/ { rec(2); } case \"Alice\" { rec(3); } } return 1;", tr(s.want...), ""})
 	}
+	// function definitions wherever they stand - between statements, inside other functions, inside blocks and
+	// loop bodies, in switch arms - do nothing at run time and drop nothing around them
+	out = append(out,
+		traceCase{"x = 5; rec(1); function outer() { rec(\"o\"); function inner() { rec(\"i\"); return 1; } return inner() + 1; } rec(2); y = outer(); rec(x, y); return x;", tr("1", "2", "o", "i", "5,2"), "V:INTEGER:" + hexs("5")},
+		traceCase{"rec(1); function a() { function b() { function c() { rec(\"c\"); return 3; } return c(); } return b(); } rec(2); r = a(); rec(r); return r;", tr("1", "2", "c", "3"), "V:INTEGER:" + hexs("3")},
+		traceCase{"n = 0; while (n < 2) { rec(n); function step(v) { return v + 1; } n = step(n); } rec(\"end\"); return n;", tr("0", "1", "end"), "V:INTEGER:" + hexs("2")},
+		traceCase{"rec(1); if (false) { function never() { rec(\"never\"); return 7; } rec(\"dead\"); } rec(2); r = never(); rec(r); return r;", tr("1", "2", "never", "7"), "V:INTEGER:" + hexs("7")},
+		traceCase{"foreach v in [1, 2] { rec(v); function twice(q) { return q * 2; } rec(twice(v)); } return 0;", tr("1", "2", "2", "4"), "V:INTEGER:" + hexs("0")},
+		traceCase{"rec(1); switch (2) { case 1 { function one() { return 1; } rec(\"one\"); } case 2 { function two() { return 2; } rec(\"two\"); } default { function dflt() { return 0; } } } rec(one() + two() + dflt()); return 9;", tr("1", "two", "3"), "V:INTEGER:" + hexs("9")},
+		traceCase{"x = 1; function f() { return 10; } x = x + 1; function g() { return 20; } x = x + 1; rec(x); r = f() + g(); return r + x;", tr("3"), "V:INTEGER:" + hexs("33")},
+		traceCase{"rec(\"a\"); function outer() { function inner() { return 1; } rec(\"in-outer\"); return 2; } rec(\"b\"); return 4;", tr("a", "b"), "V:INTEGER:" + hexs("4")},
+	)
 	out = append(out,
 		traceCase{"rec(1); return 2; rec(3);", tr("1"), "V:INTEGER:" + hexs("2")},
 		traceCase{"rec(1); if (true) { return 2; } rec(3);", tr("1"), "V:INTEGER:" + hexs("2")},
